@@ -169,6 +169,14 @@ theorem C12_current_tree (pool : Option (Nat × Nat)) : treeCfg pool = repaired 
   simp [treeCfg, repaired, Consts.srvHandleWaitsBeforeRelease, Consts.srvCloseIdlesCloses,
     Consts.srvInvokeDecDeferred, Consts.srvInvokeDecBeforeWrite, Consts.srvRecvDrainTickFirst]
 
+/-- **The deferred close waits without bound.** In the model a connection's own close (`drainClose`)
+has `numInvoke = 0` as its only guard, which is what `C12_answered_before_close` rests on: however long a
+request that has been read waits — in the pool's job queue, behind other connections' work — its
+connection stays open. Regenerated from the source on every run: this theorem no longer builds when the
+drain loop of the deferred close gets another exit (a bound on the ticks, a timeout, a second `break`). -/
+theorem C12_current_tree_drain_unbounded : treeDrainUnbounded = true := by
+  simp [treeDrainUnbounded, Consts.srvRecvDrainUnbounded]
+
 /-- hence the safety part of C12 holds for the model variant of the current tree -/
 theorem C12_current_tree_safety (pool : Option (Nat × Nat)) : C12_safety (treeCfg pool) := by
   rw [C12_current_tree]; exact C12_repaired_safety pool
